@@ -1,10 +1,11 @@
 (* C14 - Coordinate conversions round-trip and agree with the WGS84 ellipsoid (partial).
    Only property theorems (closed by [exact]), Print Assumptions and non-vacuity examples.
    Proved for every input: the statements below.  NOT proved for every input: the 1e-9 degree / 1 mm bound of the
-   geographic <-> ECEF round trip for h <> 0 and the Lambert-93 pair; those are kernel-checked pointwise by
-   Coq-Interval at every sampled input of the check (harness/props/C14.py, lemma-mode streams). *)
+   geographic <-> ECEF round trip for h <> 0 and the convergence of the ten iterations of the Lambert-93 inverse (its
+   longitude, its isometric latitude and the fixed point of its iteration are exact, below); those are kernel-checked
+   pointwise by Coq-Interval at every sampled input of the check (harness/props/C14.py, lemma-mode streams). *)
 From Coq Require Import Reals Lra.
-From TL Require Import Proofs.Atan2 Proofs.Bowring Proofs.CoordsENU Proofs.CoordsDeg.
+From TL Require Import Proofs.Atan2 Proofs.Bowring Proofs.CoordsENU Proofs.CoordsDeg Proofs.Lambert Proofs.LambertDeg.
 Open Scope R_scope.
 
 (* ECEF -> local -> ECEF and local -> ECEF -> local are exact, for every base (the rotation angles are those the code computes from the base) *)
@@ -50,6 +51,23 @@ Theorem C14_closed_form lon lat h :
   geo_to_ecef_deg (lon, lat, h) = ((N + h) * cos (d2r lat) * cos (d2r lon), (N + h) * cos (d2r lat) * sin (d2r lon), (N * (1 - e2) + h) * sin (d2r lat)).
 Proof. exact (ecef_closed_form lon lat h). Qed.
 Print Assumptions C14_closed_form.
+
+(* Lambert-93 (constants of obs_coords.py): the inverse recovers the longitude exactly, on the whole zone *)
+Theorem C14_lambert_longitude_exact lon lat : - (PI / 2) < Ln * (d2r lon - Ll0) < PI / 2 ->
+  fst (let '(X, Y) := to_l93 lon lat in from_l93 X Y) = lon.
+Proof. exact (l93_lon_exact lon lat). Qed.
+Print Assumptions C14_lambert_longitude_exact.
+
+(* ... recovers the isometric latitude exactly ... *)
+Theorem C14_lambert_latiso_exact lon lat :
+  let '(X, Y) := to_l93 lon lat in inv_latiso LXp LYp Ln LC X Y = latiso LE (d2r lat).
+Proof. exact (l93_latiso_exact lon lat). Qed.
+Print Assumptions C14_lambert_latiso_exact.
+
+(* ... and the latitude is a fixed point of the iteration the inverse runs from there (any number of steps) *)
+Theorem C14_lambert_latitude_fixpoint lat k : -90 < lat < 90 -> inv_iter LE k (latiso LE (d2r lat)) (d2r lat) * 180 / PI = lat.
+Proof. exact (l93_lat_fixpoint lat k). Qed.
+Print Assumptions C14_lambert_latitude_fixpoint.
 
 (* non-vacuity: the hypotheses of the two exactness theorems hold at ordinary positions *)
 Example C14_example : (-180 < 2 <= 180) /\ (-90 < 48 < 90) /\ - nrad Re Fe (d2r 48) < 100.
